@@ -114,8 +114,15 @@ def check_ast(ast, lay, fails, text, counts):
 
 
 def _dirs(g):
+    """g = None: no directive; g = int: a linemarker to a far line of a new
+    file in gap g; g = ('reset', k): a linemarker in gap k that restarts at
+    line 1 of a new file, so that later tokens collide on (line, column) with
+    earlier tokens of another file."""
     if g is None:
         return None
+    if isinstance(g, (tuple, list)):
+        k = g[1]
+        return {k: [layout.line_directive(1, f"r{k}.h", flags=(1,), keyword=False)]}
     return {g: [layout.line_directive(100 + 7 * g, f"inc{g}.h", flags=(1,), keyword=(g % 2 == 0))]}
 
 
@@ -181,7 +188,10 @@ def _work(task):
             continue
         ok_any = False
         for lname, _ in base_layouts(nt):
-            for g in [None] + list(range(nt + 1)):
+            gaps = [None] + list(range(nt + 1))
+            if lname != "indented":
+                gaps += [("reset", k) for k in range(1, nt + 1)]
+            for g in gaps:
                 acc, fl = evaluate(toks, lname, g, counts)
                 n += 1
                 fails.extend(fl)
